@@ -16,7 +16,7 @@
 -/
 import EasyMl.Model.Tensor
 
-namespace EasyMl
+namespace EasyMl.Fallible
 
 variable {ν : Type} [DecidableEq ν]
 
@@ -754,4 +754,4 @@ def qrShape (rows columns : Nat) : Outcome (Option ((Nat × Nat) × (Nat × Nat)
     | .panic k => .panic k
     | .ok _ => .ok (some ((rows, rows), (rows, columns)))
 
-end EasyMl
+end EasyMl.Fallible
